@@ -326,6 +326,59 @@ pub fn run(run: &Run) {
         }
     });
 
+    // ---- entries on different scales: the leading quadrant of both operands multiplied by 2^26. Every entry of the
+    // product outside its leading quadrant is a sum of exactly representable terms below 2^53 and must be exact
+    {
+        let shapes: Vec<(usize, usize, usize)> = if run.thorough() { vec![(8, 8, 8), (32, 32, 32), (36, 40, 34), (33, 40, 34), (48, 34, 50), (64, 64, 64), (70, 66, 68), (128, 64, 96)] } else { vec![(8, 8, 8), (32, 32, 32), (36, 40, 34), (33, 40, 34), (48, 34, 50), (64, 64, 64)] };
+        run.bound("mixed-scale operands", format!("{:?} × 4 flag pairs, leading quadrant × 2^26", shapes));
+        shapes.par_iter().for_each(|&(m, l, n)| {
+            for &ta in &[false, true] {
+                for &tb in &[false, true] {
+                    let (ar, ac) = if ta { (l, m) } else { (m, l) };
+                    let (br, bc) = if tb { (n, l) } else { (l, n) };
+                    let big = 2f64.powi(26);
+                    let a: Vec<f64> = fill(ar, ac, 0).iter().enumerate().map(|(k, v)| if k / ac < ar / 2 && k % ac < ac / 2 { v * big } else { *v }).collect();
+                    let b: Vec<f64> = fill(br, bc, 50).iter().enumerate().map(|(k, v)| if k / bc < br / 2 && k % bc < bc / 2 { v * big } else { *v }).collect();
+                    let ea = |i: usize, k: usize| if ta { a[k * ac + i] } else { a[i * ac + k] };
+                    let eb = |k: usize, j: usize| if tb { b[j * bc + k] } else { b[k * bc + j] };
+                    run.case();
+                    run.tr();
+                    run.ok();
+                    run.nontrivial(1);
+                    for blocked in [false, true] {
+                        let site = format!("{}/{}{}", if blocked { "matmul_blocked" } else { "matmul" }, fl(ta), fl(tb));
+                        match guard(|| if blocked { matmul_blocked(&a, &b, ar, br, ta, tb, 8) } else { matmul(&a, &b, ar, br, ta, tb) }) {
+                            Ok(got) => {
+                                let mut bad = None;
+                                'outer: for i in 0..m {
+                                    for j in 0..n {
+                                        if i < m / 2 && j < n / 2 {
+                                            continue;
+                                        }
+                                        // exact whatever the order of summation: every term is a multiple of 1/16 and the
+                                        // entry stays below 2^49 (in sixteenths: below 2^53)
+                                        let want16: i128 = (0..l).map(|k| (ea(i, k) * 4.0) as i128 * (eb(k, j) * 4.0) as i128).sum();
+                                        assert!(want16 < (1i128 << 53));
+                                        let want = want16 as f64 / 16.0;
+                                        if got.len() != m * n || got[i * n + j] != want {
+                                            bad = Some((i, j, got.get(i * n + j).copied().unwrap_or(f64::NAN), want));
+                                            break 'outer;
+                                        }
+                                    }
+                                }
+                                match bad {
+                                    Some((i, j, g, w)) => run.violate(&format!("{}/wrong-values/mixed-scale", site), || format!("A {}x{}, B {}x{} with the leading quadrants × 2^26, ta={}, tb={}: entry ({},{}) = {:e}, exact value {:e}", ar, ac, br, bc, ta, tb, i, j, g, w)),
+                                    None => run.regime("mixed-scale-operands"),
+                                }
+                            }
+                            Err(p) => run.violate(&format!("{}/panic-on-conformable", site), || format!("mixed-scale A {}x{}, B {}x{}: {}", ar, ac, br, bc, p)),
+                        }
+                    }
+                }
+            }
+        });
+    }
+
     // ---- Dot trait: Matrix · Matrix ------------------------------------------------------
     let sd = run.tier.pick(5usize, 9usize);
     run.bound("Dot shape pairs", format!("(r1,c1,r2,c2) in 1..={}^4, all 16 method×form combinations", sd));
